@@ -325,7 +325,7 @@ Qed.
 Lemma tok_alpha : forall sp c t, tok_ok sp t = true -> wf sp c ->
   forallb (talpha sp t) (render_tok c t) = true.
 Proof.
-  intros sp c t T W. destruct t as [s|f|f|f|f|f|f|f|f]; cbn [tok_ok talpha render_tok] in *.
+  intros sp c t T W. destruct t as [s|f|f|f|f|f|f|f|f|f]; cbn [tok_ok talpha render_tok] in *.
   - discriminate T.
   - destruct (fty_of sp f) as [[]|] eqn:F; try discriminate T.
     pose proof (wf_field _ _ _ _ W F) as V. destruct (get f c); try discriminate V.
@@ -345,7 +345,7 @@ Proof.
     apply r_list_alpha; try (rewrite orb_true_r; reflexivity).
     intros x Hx. apply forallb_weaken with (p := calpha c0).
     + intros b Hb. rewrite Hb. reflexivity.
-    + apply str_ok_alpha. auto.
+    + apply str_ok_alpha. specialize (V x Hx). apply andb_prop in V. tauto.
   - destruct (fty_of sp f) as [[]|] eqn:F; try discriminate T.
     pose proof (wf_field _ _ _ _ W F) as V. destruct (get f c); try discriminate V.
     apply r_list_alpha; try (rewrite orb_true_r; reflexivity).
@@ -377,6 +377,13 @@ Proof.
   - destruct (fty_of sp f) as [[]|] eqn:F; try discriminate T.
     pose proof (wf_field _ _ _ _ W F) as V. destruct (get f c); try discriminate V.
     cbn [val_ok] in V. apply andb_prop in V as [V _]. apply r_hex_hex. exact V.
+  - destruct (fty_of sp f) as [[]|] eqn:F; try discriminate T.
+    pose proof (wf_field _ _ _ _ W F) as V. destruct (get f c); try discriminate V.
+    cbn [val_ok] in V. rewrite forallb_forall in V.
+    apply r_list_alpha; try (rewrite orb_true_r; reflexivity).
+    intros x Hx. apply in_map_iff in Hx as (y & <- & Hy). specialize (V y Hy). apply andb_prop in V as [V _].
+    apply forallb_weaken with (p := is_hex); [|apply r_hex_hex; exact V].
+    intros b Hb. rewrite Hb. reflexivity.
 Qed.
 
 Lemma stop_cases : forall t, stop t -> exists b r, t = b :: r /\ (b = 32 \/ b = 93).
@@ -386,7 +393,7 @@ Lemma tok_inj : forall sp c1 c2 t f, tok_ok sp t = true -> wf sp c1 -> wf sp c2 
   render_tok c1 t = render_tok c2 t -> tok_field t = Some f -> get f c1 = get f c2.
 Proof.
   intros sp c1 c2 t f0 T W1 W2 E TF.
-  destruct t as [s|f|f|f|f|f|f|f|f]; cbn [tok_ok render_tok tok_field] in *; try discriminate TF;
+  destruct t as [s|f|f|f|f|f|f|f|f|f]; cbn [tok_ok render_tok tok_field] in *; try discriminate TF;
     injection TF as TF; subst f0;
     destruct (fty_of sp f) as [ty|] eqn:F; try discriminate T;
     destruct ty as [|c|ic| |c| |c]; try discriminate T;
@@ -410,8 +417,8 @@ Proof.
       apply split_delim2 with (a := calpha c) in H; auto using str_ok_alpha.
       * destruct B1; subst; assumption.
       * destruct B2; subst; assumption.
-    + apply Forall_forall. exact V1.
-    + apply Forall_forall. exact V2.
+    + apply Forall_forall. intros x Hx. specialize (V1 x Hx). apply andb_prop in V1. tauto.
+    + apply Forall_forall. intros x Hx. specialize (V2 x Hx). apply andb_prop in V2. tauto.
   - (* []Int *)
     f_equal.
     apply (r_list_inj (option Z) r_oint (fun _ => True)); auto.
@@ -442,6 +449,19 @@ Proof.
   - (* %x *)
     cbn [val_ok] in V1, V2. apply andb_prop in V1 as [V1 _]. apply andb_prop in V2 as [V2 _].
     f_equal. apply r_hex_inj; auto.
+  - (* %x of []string *)
+    cbn [val_ok] in V1, V2. rewrite forallb_forall in V1, V2.
+    f_equal.
+    apply (r_list_inj bytes r_hex (fun x => forallb is_byte x = true /\ str_ok c x = true)); auto.
+    + intros e [Hb Hs]. apply head_not with (a := is_hex); auto using r_hex_hex.
+      pose proof (str_ok_nonempty c e T Hs) as Ne. destruct e; [congruence|cbn [r_hex]; discriminate].
+    + intros e1 e2 t1 t2 [B1 _] [B2 _] (b1 & r1 & -> & C1) (b2 & r2 & -> & C2) H.
+      apply split_delim2 with (a := is_hex) in H; auto using r_hex_hex.
+      * destruct H as [H1 H2]. split; [apply r_hex_inj; auto|exact H2].
+      * destruct C1; subst; reflexivity.
+      * destruct C2; subst; reflexivity.
+    + apply Forall_forall. intros x Hx. specialize (V1 x Hx). apply andb_prop in V1. tauto.
+    + apply Forall_forall. intros x Hx. specialize (V2 x Hx). apply andb_prop in V2. tauto.
 Qed.
 
 (* ---------- the induction over the token list ---------- *)
@@ -453,7 +473,7 @@ Lemma render_follow : forall a rest c1 c2 x1 x2,
 Proof.
   intros a rest c1 c2 x1 x2 Fo A1 A2 E. destruct rest as [|t r]; cbn [follow_ok] in Fo.
   - cbn [render] in *. rewrite !app_nil_r in E. auto.
-  - destruct t as [s| | | | | | | |]; try discriminate Fo. destruct s as [|b s]; [discriminate Fo|].
+  - destruct t as [s| | | | | | | | |]; try discriminate Fo. destruct s as [|b s]; [discriminate Fo|].
     apply negb_true_iff in Fo. cbn [render render_tok app] in *.
     apply split_delim2 with (a := a) in E; auto.
 Qed.
@@ -467,7 +487,7 @@ Proof.
   - destruct fm; [destruct Hf|cbn [length] in L; lia].
   - destruct fm as [|t r]; [destruct Hf|]. cbn [length] in L.
     assert (Lr : (length r <= n)%nat) by lia.
-    destruct t as [s|g|g|g|g|g|g|g|g].
+    destruct t as [s|g|g|g|g|g|g|g|g|g].
     1: { cbn [chk] in C. cbn [render render_tok] in E. apply app_inv_head in E.
          cbn [fmt_fields tok_field] in Hf. eapply IH; eauto. }
     all: cbn [chk] in C; apply andb_prop in C as [C Cr]; apply orb_prop in C as [C|C].
@@ -481,7 +501,7 @@ Proof.
       [eapply tok_inj; eauto; reflexivity | eapply IH; eauto]).
     (* special step: U64 g directly followed by an address *)
     cbn [special] in C. destruct r as [|t' r']; [discriminate C|].
-    destruct t' as [s|g'|g'|g'|g'|g'|g'|g'|g']; try discriminate C.
+    destruct t' as [s|g'|g'|g'|g'|g'|g'|g'|g'|g']; try discriminate C.
     apply andb_prop in C as [C Fo]. apply andb_prop in C as [T Ad].
     unfold is_addr_field in Ad. destruct (fty_of sp g') as [ty|] eqn:F'; [|discriminate Ad].
     destruct ty as [|cl| | | | |]; try discriminate Ad. destruct cl; try discriminate Ad.
